@@ -39,7 +39,7 @@ class Base:
         g.with_comments = True
         n = 1200 if tier == "quick" else 12000
         hd = G.heredoc_corpus()
-        progs = CORPUS + (hd if tier == 'thorough' else rnd.sample(hd, 400)) + [g.program(rnd.choice([1, 2, 2, 3])) for _ in range(n)]
+        progs = CORPUS + G.arith_corpus() + (hd if tier == 'thorough' else rnd.sample(hd, 400)) + [g.program(rnd.choice([1, 2, 2, 3])) for _ in range(n)]
         pair = ",".join(str(i) for i in oa16())
         cases = []
         for k, p in enumerate(progs):
